@@ -242,9 +242,10 @@ class PushCpuStats:
     def pre_depth(self):
         return self.depth >= 0
 
-    def pre_one_value_per_core(self, cpu_stats):
-        """one value is popped per stored core: with fewer values the pop raises IndexError half-way (Appendix A18)"""
-        return len(cpu_stats) >= len(self.cpu)
+    # NO precondition len(cpu_stats) >= len(self.cpu): push_statistics cannot establish it (the number of values is
+    # min(len(sample['cpu']), len(ref['cpu'])), the number of histories is that of the FIRST sample), so the helper is
+    # verified without it: `safe:IndexError` at the pop is refuted on the unchanged tree = known finding
+    # C20-cpu-count-shrinks (DESIGN Appendix A18).  The postconditions below describe the normal return.
 
     def post_one_more_point_per_core(self, old):
         return forall(int, lambda i: implies(0 <= i and i < len(self.cpu),
@@ -269,3 +270,94 @@ class PushCpuStats:
                         len(self.cpu[i]) == capped(len(old.self.cpu[i]), self.depth)
                         and implies(self.depth >= 1, self.cpu[i][len(self.cpu[i]) - 1] == old.cpu_stats[i]),
                         len(self.cpu[i]) == len(old.self.cpu[i])))))
+
+
+def host_core_inv(h):
+    """'at most stats_histo points', 'the value series of one entity always have exactly as many points as their time
+    series' for the times / mem / per-core cpu histories (DESIGN C20.2); depth = stats_histo lies in [10, 1500] (C18)"""
+    n = len(h.times)
+    return (h.depth >= 1 and n <= h.depth and len(h.mem) == n and forall(h.cpu, lambda l: len(l) == n)
+            and implies(not bool(h.ref_stats), n == 0))
+
+
+def host_core_sep(h):
+    """times, mem, the cpu list and the per-core lists are distinct list objects"""
+    return (h.times is not h.mem and h.cpu is not h.times and h.cpu is not h.mem
+            and forall(h.cpu, lambda l: l is not h.times and l is not h.mem) and cpu_part_separated(h))
+
+
+def host_sample(s):
+    """shape of a host sample (statscollector.HostStatisticsCollector.collect_host_statistics)"""
+    return 'now' in s and 'cpu' in s and 'mem' in s and 'net_io' in s and 'disk_io' in s and 'disk_usage' in s
+
+
+def host_gate(h, sample):
+    """'a new point is produced only when at least the period has elapsed since the previous one' (DESIGN C20.3)"""
+    return bool(h.ref_stats) and sample['now'] - h.ref_stats['now'] >= h.period
+
+
+def host_ref_ok(h):
+    """the reference sample is a host sample.  NOTE: 'one history per CPU entry of the reference sample' is NOT an
+    invariant of the code: zip() in cpu_statistics silently truncates a longer sample, which then becomes the reference."""
+    return implies(bool(h.ref_stats), host_sample(h.ref_stats))
+
+
+def is_core_list(h, r):
+    """r is one of the times / mem / cpu history lists of the instance"""
+    return r is h.times or r is h.mem or r is h.cpu or exists(h.cpu, lambda l: r is l)
+
+
+@contract('statscompiler:HostStatisticsInstance._push_timed_stats', props=['C20'])
+class PushTimedStats:
+    """FRAME ONLY, ASSUMED (NOT verified, see not_decided of C20): the helper writes the dictionary it is given, pops the
+    integrated values and appends to / truncates history lists other than the times / mem / cpu lists of the instance
+    (it only reaches the lists stored in the dictionary, which are created fresh for each new key and never shared with
+    the other series).  The alignment of the interface / disk series (DESIGN C20.2, second half) is NOT proved."""
+    assumed = True
+    raises = ()
+
+    def modifies(self, ref_stats, io_stats):
+        return [contents(ref_stats), contents(io_stats), contents_where(lambda r: not is_core_list(self, r), 'list')]
+
+
+@contract('statscompiler:HostStatisticsInstance.push_statistics', props=['C20'])
+class HostInstancePush:
+    """'every history kept per instance ... and period holds at most stats_histo points, the value series of one entity
+    always have exactly as many points as their time series, and a new point is produced only when at least the period
+    has elapsed since the previous one' - for the times, mem and per-core cpu series of one (instance, period)."""
+    raises = ()
+
+    def pre_invariant(self):
+        return host_core_inv(self) and host_core_sep(self) and host_ref_ok(self)
+
+    def pre_sample(self, stats):
+        return host_sample(stats)
+
+    def pre_period(self):
+        """options.to_period(s): a period lies in [1, 3600] (C18)"""
+        return self.period > 0
+
+    def post_invariant(self):
+        return host_core_inv(self) and host_core_sep(self)
+
+    def post_reference(self):
+        return bool(self.ref_stats) and host_ref_ok(self)
+
+    def post_result_iff_gate(self, stats, result, old):
+        return bool(result) == host_gate(old.self, stats)
+
+    def post_new_point_iff_gate(self, stats, old):
+        n = len(old.self.times)
+        return len(self.times) == ite(host_gate(old.self, stats), capped(n, self.depth), n)
+
+    def post_reference_rollover(self, stats, old):
+        """DESIGN C20.3: ref_stats' = stats exactly when a point is produced, and on the first push"""
+        return self.ref_stats is ite(host_gate(old.self, stats) or not bool(old.self.ref_stats), stats, old.self.ref_stats)
+
+    def post_start_time(self, stats, old):
+        return self.ref_start_time == ite(bool(old.self.ref_stats), old.self.ref_start_time, stats['now'])
+
+    def post_new_values(self, stats, old):
+        m = len(self.times)
+        return implies(host_gate(old.self, stats),
+                       self.times[m - 1] == stats['now'] - old.self.ref_start_time and self.mem[m - 1] == stats['mem'])
